@@ -605,6 +605,9 @@ func (x *ExtendedReport) Unmarshal(b []byte) error {
 		return err
 	}
 
+	// blocks left over from an earlier Unmarshal into the same value are not part of this packet
+	x.Reports = nil
+
 	for len(buffer.bytes) > 0 {
 		var block ReportBlock
 
